@@ -117,7 +117,7 @@ Definition txt_invmsg : bytes :=        (* "Invalid FIX Message" *)
   [73;110;118;97;108;105;100;32;70;73;88;32;77;101;115;115;97;103;101].
 Definition colon_sp : bytes := [58;32].
 Definition txt_at : bytes := [32;97;116].           (* " at" *)
-Definition pat_34 : bytes := [1;51;52;61].          (* SOH "34=": the MsgSeqNum tag itself (since /repo b6a87a4..: F24 repaired) *)
+Definition pat_34 : bytes := [1;51;52;61].          (* SOH "34=": the MsgSeqNum tag itself (since /repo 57dfe06: F24 repaired) *)
 Definition pat_34_orig : bytes := [51;52;61].       (* "34=" anywhere, also inside another tag or value (F24) *)
 
 (* f8Exception::format(msg, a, msg2, b) = msg ": " a msg2 ": " b *)
@@ -583,7 +583,19 @@ Definition process_catch (seqnum : N) (mt : option bytes) (r : (bool + exc) * se
     (false, stop s2, (e1 ++ e2)%list)
   | (inr (Exc text false), s1, e1) =>
     let '(_, s2, e2) := handle_outbound_reject seqnum mt text s1 in
+    (* since /repo beb4ce7 the control record is updated on this path too *)
+    (true, update_persist_seqnums (w_next_recv (s_next_recv s2 + 1) s2), (e1 ++ e2)%list)
+  end.
+
+(* the catch block BEFORE /repo beb4ce7: the Reject path incremented next_recv without updating the control
+   record; kept only for an ..._orig_refuted witness *)
+Definition process_catch_orig (seqnum : N) (mt : option bytes) (r : (bool + exc) * sess * list event)
+  : bool * sess * list event :=
+  match r with
+  | (inr (Exc text false), s1, e1) =>
+    let '(_, s2, e2) := handle_outbound_reject seqnum mt text s1 in
     (true, w_next_recv (s_next_recv s2 + 1) s2, (e1 ++ e2)%list)
+  | _ => process_catch seqnum mt r
   end.
 
 (* Session::process.  UNDEF = the raw 34= scan runs off the end of the string (no SOH follows) *)
